@@ -32,6 +32,7 @@ fn pool() -> Vec<(&'static str, Value)> {
         .collect();
     vec![
         ("arr40n", Value::Array(mixed_num)),
+        ("ampuni", Value::scalar("\u{6771}\u{4eac} & \u{65e5}\u{672c}\u{8a9e} &lt\u{e9} &amp;\u{65e5} &#39\u{e9}\u{1f600}&quot")),
         ("hugenum", Value::scalar("1455616800000000")),
         ("y10k", Value::scalar("253402300800")),
         ("minstr", Value::scalar(i64::MIN.to_string())),
